@@ -43,8 +43,10 @@ CLAIMS = {
          "added_minimal, size_one_noop, picks_consumed, sample_call_aligned).",
          TB + "random.choices / random.randrange are assumed to draw as documented (only their arguments are checked); tuple-ness of entries is checked by the oracle on the real objects."),
  "C06": ("Value/support/normalisation theorems for every deterministic loader over exact rationals: empirical_freq, empirical_sums_one, marginal_direct_value/support/sums_one/"
-         "nonneg/zero (error branch), sampled_calls_aligned + marginal_sampled_is_empirical, function_value/support, load_eq_direct_*. PARTIAL: the many-samples limit of sampling "
-         "mode is kept as the unproved statement marginal_sampled_limit_full (no executable model exhibits a limit).",
+         "nonneg/zero (error branch), sampled_calls_aligned + marginal_sampled_is_empirical, function_value/support, load_eq_direct_*. The many-samples limit of sampling "
+         "mode is proved as a CONDITIONAL theorem (marginal_sampled_limit: if the column frequencies converge to the normalised marginals and the columns are asymptotically "
+         "independent — the law-of-large-numbers facts about random.choices, which stay assumptions — every table entry converges to the product law on the inclusive box; "
+         "the hypotheses are shown satisfiable by an example).",
          TB + "weights are exact rationals (the real code runs on an exact number type); random.choices assumed to draw in proportion to the weights."),
  "C07": ("validSplits enumerates exactly the joint degrees with edgesOf = k, each once (validSplits_sound/complete/nodup); for the split loader the mass of each degree class is "
          "fp k / S, within a class mass is proportional to the split weight, the table sums to 1 and its support is exact (split_class_mass, split_within_class, split_sums_one, "
@@ -67,7 +69,7 @@ CLAIMS = {
          TB + "nx.enumerate_all_cliques contract validated per instance against the brute-force allCliques of the model; the shuffle is the stdlib Fisher-Yates run on scripted draws."),
  "C15": ("automated_exact: for EVERY finite simple motif (no connectedness or size hypothesis), every root and every commutative ring (hence as an identity of polynomials in phi and the u's) the model of automated_equation equals the exact expectation over independent edge occupation of the product of u over the other vertices of the root's component; built from connectedSubgraphs_spec (the backtracking lists each connected vertex set containing the root exactly once, fuel |V| suffices, the size cut-off is irrelevant), edgeCombinations_spec and the finset identity Perc.exactE_eq_autoE. value_independent_of_history / history_values_exact: for every sequence of calls on one evaluator each value equals the fresh value (caches hold structure only); a kernel-checked counterexample shows why distinct names are required.",
          TB + "the real evaluator runs on exact polynomial arguments and is compared coefficient by coefficient; networkx set-level semantics re-defined in Model/Graph.lean."),
- "C16": ("omega_closed; nocg_spec and QQ_spec (the brute-force counters count exactly the edge subsets whose deletion / retention leaves the graph connected, all n, k, substrates); Q = Qgen for all n <= 12 and all k (kernel-evaluated table, so the Cayley shortcut agrees with the shortcut-free recursion), Q_trees for all n, Q = connCount for n <= 5; cycle_closed_form and clique_expanded over any commutative ring. PARTIAL: Q_eq_connCount_full, Qgen_eq_connCount_full (Cayley's formula is not in Mathlib v4.33), clique_exact_full and cycle_exact_full are kept as visible unproved statements; they are checked as polynomial identities by the correspondence for tau <= 7 and n <= 12, including repeated neighbour values evaluated sequentially in one process.",
+ "C16": ("omega_closed; nocg_spec and QQ_spec (the brute-force counters count exactly the edge subsets whose deletion / retention leaves the graph connected, all n, k, substrates); Q = Qgen for all n <= 12 and all k (kernel-evaluated table, so the Cayley shortcut agrees with the shortcut-free recursion), Q_trees for all n, Q = connCount for n <= 5; cycle_closed_form and clique_expanded over any commutative ring; cycle_exact: for EVERY n >= 3 the chordless-cycle closed form equals the automated equation on C_n (hence, by C15, the exact bond-percolation expectation: cycle_closed_eq_exactE). PARTIAL: Q_eq_connCount_full, Qgen_eq_connCount_full (Cayley's formula is not in Mathlib v4.33) and clique_exact_full are kept as visible unproved statements; the clique form is checked as a polynomial identity by the correspondence for tau <= 7, including repeated neighbour values evaluated sequentially in one process.",
          TB + "lru_cache assumed transparent; the equations run on exact polynomial arguments."),
  "C17": ("message_is_expectation (every update is the exact expectation of its motif, from C15), neighbour_product_is_other_motifs (under a consistent cover whose motifs pairwise share at most one vertex), theoretical_formula, range (result and every message in [0,1] for every sweep count), zero_at_zero (iterations >= 1; kernel-checked that 0 sweeps gives a non-zero value), monotone (for EVERY iteration count, by induction over the individual in-place updates using Perc.exactE_antitone), fixed_point_stable, history_independent. PARTIAL: converges_full (the 25-sweep iterate is the fixed point) is analysis and is not proved; the harness compares 1-3 sweeps exactly and the default 25 sweeps in double precision to 1e-9.",
          TB + "labels are taken in parsed form; the real label parser is checked by the harness against the generating structure; Python floats are outside the model except for the bit-exact comparison of the 25-sweep run to 1e-9."),
